@@ -1,9 +1,11 @@
 """C10 generator: constraint sets that steer 2-4 submitters of one job at the gates of
 vlib/inject/conc10.py.
 
-A case is {"mode": "procs"|"threads", "n": 2..4, "worker": "debug"|"cf", "shape": "task"|"wf", "pre": bool,
+A case is {"mode": "procs"|"threads", "n": 2..4, "worker": "debug"|"cf", "shape": "task"|"wf"|"wf_shared",
+"clean_stale_locks": null|true|false (Submitter option; null = not given), "pre": bool,
 "delay_ms": 0|50, "x": str, "constraints": [[i, gate, j, gate, "passed"|"arrived"], ...],
-"escape_s": float}.
+"escape_s": float}.  Shape "wf_shared": every submitter submits a DIFFERENT workflow (own salt input)
+around the same node job; the gates then follow that node job.
 
 Half of the constraint sets are instances of scenario templates that are feasible by construction
 (a second submitter arrives while the first one is inside a chosen section of the locked region and
@@ -38,7 +40,12 @@ SECTIONS_PRE = [("after_acquire", "after_check"), ("after_check", "before_releas
 
 
 @st.composite
-def scenario(draw, n, pre=False):
+def scenario(draw, n, pre=False, hold=None):
+    """`hold`: the gate at which a later submitter is held back - "before_acquire" (it has started,
+    stamped its run start and stands in front of the lock) or "before_submit" (it has not yet
+    created its Submitter: it STARTS while the owner is at work); drawn when not given"""
+    if hold is None:
+        hold = draw(st.sampled_from(["before_acquire", "before_acquire", "before_submit"]))
     procs = list(range(n))
     owner = draw(st.sampled_from(procs))
     others = [p for p in procs if p != owner]
@@ -49,11 +56,11 @@ def scenario(draw, n, pre=False):
         inside, leave = draw(st.sampled_from(SECTIONS_PRE if pre else SECTIONS))
         k = draw(st.integers(1, len(others)))
         for c in others[:k]:
-            cons.append([c, "before_acquire", owner, inside, "passed"])
+            cons.append([c, hold, owner, inside, "passed"])
             cons.append([owner, leave, c, "lock_wait", "passed"])
         for c in others[k:]:
             if draw(st.booleans()):
-                cons.append([c, "before_acquire", owner, draw(st.sampled_from(["after_release", "returned"])), "passed"])
+                cons.append([c, hold, owner, draw(st.sampled_from(["after_release", "returned"])), "passed"])
     elif kind == "intrude":
         # infeasible while the lock excludes (escaped at once as a wait-for cycle); it becomes feasible -
         # and exposes the overlap - exactly when a second submitter can get into the locked region
@@ -63,7 +70,7 @@ def scenario(draw, n, pre=False):
         reached = draw(st.sampled_from(["after_acquire", "after_check"] if pre else
                                        ["after_acquire", "after_check", "after_populate", "body_entered"]))
         c = draw(st.sampled_from(others))
-        cons.append([c, "before_acquire", owner, "after_acquire", "passed"])
+        cons.append([c, hold, owner, "after_acquire", "passed"])
         cons.append([owner, inside, c, reached, "passed"])
     elif kind == "barrier":
         for a in procs:
@@ -72,15 +79,15 @@ def scenario(draw, n, pre=False):
                     cons.append([a, "before_acquire", b, "before_acquire", "arrived"])
     elif kind == "at_release":
         for c in others:
-            cons.append([c, "before_acquire", owner, draw(st.sampled_from(["before_release", "after_save"])),
+            cons.append([c, hold, owner, draw(st.sampled_from(["before_release", "after_save"])),
                          draw(st.sampled_from(["arrived", "passed"]))])
     elif kind == "late":
         for c in others:
-            cons.append([c, "before_acquire", owner, draw(st.sampled_from(["after_release", "returned"])), "passed"])
+            cons.append([c, hold, owner, draw(st.sampled_from(["after_release", "returned"])), "passed"])
     else:  # chain: each submitter arrives while its predecessor is polling or holding
         order = draw(st.permutations(procs))
         for a, b in zip(order, order[1:]):
-            cons.append([b, "before_acquire", a,
+            cons.append([b, hold, a,
                          draw(st.sampled_from(["after_acquire", "lock_wait"] + ([] if pre else ["body_entered"]))),
                          "passed"])
         cons.append([order[0], draw(st.sampled_from(["before_release"] if pre else
@@ -113,7 +120,32 @@ def cases(draw, max_n=3):
         kind, cons = draw(free_constraints(n))
     else:
         kind, cons = draw(scenario(n, pre))
-    shape = "task" if mode == "threads" else draw(st.sampled_from(["task", "task", "wf"]))
+    shape = "task" if mode == "threads" else draw(st.sampled_from(["task", "task", "task", "wf", "wf",
+                                                                   "wf_shared"]))
     return dict(mode=mode, n=n, worker=worker, shape=shape, pre=pre,
+                clean_stale_locks=draw(st.sampled_from([None, None, False, True])),
+                delay_ms=draw(st.sampled_from([0, 50])), x=f"v{draw(st.integers(0, 9))}",
+                constraints=cons, scenario=kind, escape_s=30.0)
+
+
+@st.composite
+def shared_node_cases(draw, max_n=3):
+    """2..max_n submitter processes, each with a DIFFERENT workflow around the same node job (shape
+    "wf_shared"), Submitter option clean_stale_locks drawn (mostly the value documented for shared
+    caches, False), scenarios in which a submitter starts while another one is inside a drawn
+    section of the locked region of the node job preferred."""
+    assume(draw(st.integers(0, 255)) != 0)
+    n = draw(st.integers(2, max_n))
+    worker = draw(st.sampled_from(["debug", "debug", "debug", "cf"]))
+    pre = draw(st.integers(0, 3)) == 0
+    pick = draw(st.integers(0, 5))
+    if pick == 0:
+        kind, cons = draw(free_constraints(n))
+    elif pick == 1:
+        kind, cons = draw(scenario(n, pre))
+    else:
+        kind, cons = draw(scenario(n, pre, hold="before_submit"))
+    return dict(mode="procs", n=n, worker=worker, shape="wf_shared", pre=pre,
+                clean_stale_locks=draw(st.sampled_from([False, False, False, None, True])),
                 delay_ms=draw(st.sampled_from([0, 50])), x=f"v{draw(st.integers(0, 9))}",
                 constraints=cons, scenario=kind, escape_s=30.0)
